@@ -37,6 +37,12 @@ pub struct Case {
     /// policy used for the angle perturbations (index into ANGLE_POLICIES); other kinds ignore it
     #[serde(default)]
     pub angle_policy: u8,
+    /// Fajr / Isha intervals already present in the base parameters (so that perturbations are also made on top of
+    /// interval-defined Fajr/Isha and intervals are combined, e.g. Fajr interval + Imsaak interval)
+    #[serde(default)]
+    pub base_fajr_interval: Option<F>,
+    #[serde(default)]
+    pub base_isha_interval: Option<F>,
 }
 
 /// Policies under which "the Fajr angle moves only Fajr and Imsaak, the Isha angle only Isha" can be stated
@@ -97,8 +103,18 @@ impl Prop for C12 {
             2 => weather.prop_map(Perturb::Weather),
             1 => Just(Perturb::DefaultWeather),
         ];
-        (gen::site(62.0, 2.0), 0u8..9, any::<bool>(), gen::date(), perturb, 0u8..8)
-            .prop_map(|(site, method, default_policy, date, perturb, angle_policy)| Case { site, method, default_policy, date, perturb, angle_policy })
+        let base_iv = || prop_oneof![6 => Just(None), 2 => (1.0..=120.0f64).prop_map(|x| Some(F(x))), 1 => prop_oneof![Just(Some(F(120.0))), Just(Some(F(1.0))), Just(Some(F(90.0)))]];
+        (gen::site(62.0, 2.0), 0u8..9, any::<bool>(), gen::date(), perturb, 0u8..8, base_iv(), base_iv())
+            .prop_map(|(site, method, default_policy, date, perturb, angle_policy, base_fajr_interval, base_isha_interval)| Case {
+                site,
+                method,
+                default_policy,
+                date,
+                perturb,
+                angle_policy,
+                base_fajr_interval,
+                base_isha_interval,
+            })
             .boxed()
     }
     fn check(&self, c: &Case, st: &mut Stats) -> Result<(), Failure> {
@@ -112,6 +128,25 @@ impl Prop for C12 {
         } else {
             gen::P_NONE
         };
+        // base intervals: not under the interval perturbations that set the same key, nor for the angle kinds (an
+        // interval-defined time does not move with its angle)
+        if !angle_kind {
+            if !matches!(c.perturb, Perturb::FajrInterval(_)) {
+                if let Some(v) = c.base_fajr_interval {
+                    spec.fajr_interval = Some(v);
+                }
+            }
+            if !matches!(c.perturb, Perturb::IshaInterval(_)) {
+                if let Some(v) = c.base_isha_interval {
+                    if spec.intervals().1 == 0.0 {
+                        spec.isha_interval = Some(v);
+                    }
+                }
+            }
+            if spec.fajr_interval.is_some() || spec.isha_interval.is_some() {
+                st.class("base_with_user_intervals");
+            }
+        }
         let base = compute(&c.site, &spec, c.date, None);
         let mut nontrivial = false;
         match &c.perturb {
